@@ -2,12 +2,13 @@
 fresh Network per case) -> emitted texts -> fail-closed reader -> netlist s-expression."""
 import json
 import sys
-from harness.impl import emit, generate
+from harness.impl import emit, protect_stdout, generate
 from harness import netlist
 from harness.svread import SvError
 
 
 def main():
+    protect_stdout()
     for line in sys.stdin:
         c = json.loads(line)
         r = generate(c["desc"])
